@@ -16,38 +16,70 @@ theorem failStep_cases (c : Render.Cfg) (k : Nat) (d : Doc) : failStep c k d = d
   · split <;> simp
   · simp
 
-theorem stepC_cases (c : Render.Cfg) (x : Call) (d : Doc) : stepC c x d = d ∨ stepC c x d = normGen c.tv d := by
-  unfold stepC
+theorem stepC_cases (c : Render.Cfg) (x : CallAt) (d : Doc) : stepAt c x d = d ∨ stepAt c x d = normGen c.tv d := by
+  unfold stepAt
   split
   · exact failStep_cases c _ d
   · exact failStep_cases c _ d
   · exact step_cases c _ d
 
+/-- the position-based model and the early/late model of `Render.Call` (the one the correspondence check drives) agree -/
+theorem stepAt_eq_stepC (c : Render.Cfg) (x : CallAt) (d : Doc) :
+    stepAt c x d = Render.stepC c (classify c d x) d := by
+  unfold stepAt classify failStep
+  split
+  · split
+    · split <;> rfl
+    · rfl
+  · split
+    · split <;> rfl
+    · rfl
+  · rfl
+
+theorem outC_classified_failure (c : Render.Cfg) (d : Doc) (k : Nat) (p : Option Nat) :
+    Render.outC c (match p with
+      | some m => if m ≤ k then Render.Call.failedLate else Render.Call.failedEarly
+      | none => Render.Call.failedEarly) d = none := by
+  cases p with
+  | none => rfl
+  | some m => by_cases h : m ≤ k <;> simp [h, Render.outC]
+
+theorem outAt_eq_outC (c : Render.Cfg) (x : CallAt) (d : Doc) :
+    outAt c x d = Render.outC c (classify c d x) d := by
+  obtain ⟨op, f⟩ := x
+  cases f with
+  | none => cases op <;> rfl
+  | some k =>
+    cases op
+    case save => exact (outC_classified_failure c d k _).symm
+    case write => exact (outC_classified_failure c d k _).symm
+    all_goals rfl
+
 /-- a state the history can be in: the original document or its normalised form -/
 def Reach (c : Render.Cfg) (d e : Doc) : Prop := e = d ∨ e = normGen c.tv d
 
-theorem reach_stepC (c : Render.Cfg) (x : Call) (d e : Doc) (h : Reach c d e) : Reach c d (stepC c x e) := by
+theorem reach_stepC (c : Render.Cfg) (x : CallAt) (d e : Doc) (h : Reach c d e) : Reach c d (stepAt c x e) := by
   rcases h with h | h <;> rw [h]
   · exact stepC_cases c x d
   · rcases stepC_cases c x (normGen c.tv d) with h' | h'
     · exact Or.inr h'
     · exact Or.inr (by rw [h', normGen_idempotent])
 
-theorem reach_runC (c : Render.Cfg) (xs : List Call) (d e : Doc) (h : Reach c d e) : Reach c d (runC c xs e) := by
+theorem reach_runC (c : Render.Cfg) (xs : List CallAt) (d e : Doc) (h : Reach c d e) : Reach c d (runAt c xs e) := by
   induction xs generalizing e with
   | nil => exact h
   | cons x r ih => exact ih _ (reach_stepC c x d e h)
 
 /-- **C12 with failing calls (purity)**: after ANY history of output calls, each of which may complete or raise while any
     member is being written, the document is the one before the history or its generator-normalised form. -/
-theorem render_pure_with_faults (c : Render.Cfg) (xs : List Call) (d : Doc) :
-    runC c xs d = d ∨ runC c xs d = normGen c.tv d :=
+theorem render_pure_with_faults (c : Render.Cfg) (xs : List CallAt) (d : Doc) :
+    runAt c xs d = d ∨ runAt c xs d = normGen c.tv d :=
   reach_runC c xs d d (Or.inl rfl)
 
 /-- nothing outside `office:meta` changes, however the calls end -/
-theorem nonmeta_pure_with_faults (c : Render.Cfg) (xs : List Call) (d : Doc) :
-    (runC c xs d).part = d.part ∧ (runC c xs d).pictures = d.pictures ∧ (runC c xs d).objects = d.objects ∧
-    (runC c xs d).extras = d.extras ∧ (runC c xs d).thumbnail = d.thumbnail ∧ (runC c xs d).mimetype = d.mimetype := by
+theorem nonmeta_pure_with_faults (c : Render.Cfg) (xs : List CallAt) (d : Doc) :
+    (runAt c xs d).part = d.part ∧ (runAt c xs d).pictures = d.pictures ∧ (runAt c xs d).objects = d.objects ∧
+    (runAt c xs d).extras = d.extras ∧ (runAt c xs d).thumbnail = d.thumbnail ∧ (runAt c xs d).mimetype = d.mimetype := by
   rcases render_pure_with_faults c xs d with h | h <;> rw [h] <;> simp [normGen]
 
 theorem out_reach (c : Render.Cfg) (op : Op) (d e : Doc) (h : Reach c d e) : out c op e = out c op d := by
@@ -56,10 +88,10 @@ theorem out_reach (c : Render.Cfg) (op : Op) (d e : Doc) (h : Reach c d e) : out
 
 /-- **C12 with failing calls (history independence)**: the i-th call of any history, if it completes, returns what the same
     call returns on the untouched document — whatever completed or failed before it. -/
-theorem output_independent_of_failures (c : Render.Cfg) (xs : List Call) (d : Doc) (i : Nat) (x : Call)
+theorem output_independent_of_failures (c : Render.Cfg) (xs : List CallAt) (d : Doc) (i : Nat) (x : CallAt)
     (hx : xs[i]? = some x) (hok : x.fails = false) :
-    (outsC c xs d)[i]? = some (some (out c x.op d)) := by
-  suffices H : ∀ (e : Doc), Reach c d e → (outsC c xs e)[i]? = some (some (out c x.op d)) from H d (Or.inl rfl)
+    (outsAt c xs d)[i]? = some (some (out c x.op d)) := by
+  suffices H : ∀ (e : Doc), Reach c d e → (outsAt c xs e)[i]? = some (some (out c x.op d)) from H d (Or.inl rfl)
   induction xs generalizing i with
   | nil => simp at hx
   | cons y r ih =>
@@ -67,26 +99,26 @@ theorem output_independent_of_failures (c : Render.Cfg) (xs : List Call) (d : Do
     cases i with
     | zero =>
       simp at hx; subst hx
-      simp [outsC, outC, hok, out_reach c _ d e he]
+      simp [outsAt, outAt, hok, out_reach c _ d e he]
     | succ j =>
       simp at hx
-      simp only [outsC, List.getElem?_cons_succ]
+      simp only [outsAt, List.getElem?_cons_succ]
       exact ih j hx _ (reach_stepC c y d e he)
 
 /-- the outputs of the completed calls are the outputs of the history with the failed calls taken out: a failed call is
     invisible to every later rendering -/
-theorem failed_calls_invisible (c : Render.Cfg) (xs : List Call) (d : Doc) :
-    (outsC c xs d).filterMap id = outs c (completed xs) d := by
-  suffices H : ∀ (e : Doc), Reach c d e → (outsC c xs e).filterMap id = outs c (completed xs) d from H d (Or.inl rfl)
+theorem failed_calls_invisible (c : Render.Cfg) (xs : List CallAt) (d : Doc) :
+    (outsAt c xs d).filterMap id = outs c (completed xs) d := by
+  suffices H : ∀ (e : Doc), Reach c d e → (outsAt c xs e).filterMap id = outs c (completed xs) d from H d (Or.inl rfl)
   induction xs with
   | nil => intro e _; rfl
   | cons y r ih =>
     intro e he
     have hr := ih _ (reach_stepC c y d e he)
     by_cases hf : y.fails = true
-    · simp [outsC, outC, completed, hf, hr]
+    · simp [outsAt, outAt, completed, hf, hr]
     · have hf' : y.fails = false := by simpa using hf
-      simp only [outsC, outC, completed, hf', Bool.false_eq_true, if_false, List.filterMap_cons, id]
+      simp only [outsAt, outAt, completed, hf', Bool.false_eq_true, if_false, List.filterMap_cons, id]
       rw [hr, out_reach c _ d e he]
       simp only [outs]
       rw [outs_step]
@@ -94,9 +126,9 @@ theorem failed_calls_invisible (c : Render.Cfg) (xs : List Call) (d : Doc) :
 /-- **a retry behaves like a first call**: `save` after a `save` that failed at any member writes the package a first `save`
     writes -/
 theorem retry_same (c : Render.Cfg) (k : Nat) (d : Doc) :
-    outC c ⟨.save, none⟩ (stepC c ⟨.save, some k⟩ d) = some (out c .save d) := by
-  have h : Reach c d (stepC c ⟨.save, some k⟩ d) := stepC_cases c _ d
-  simp [outC, Call.fails, out_reach c _ d _ h]
+    outAt c ⟨.save, none⟩ (stepAt c ⟨.save, some k⟩ d) = some (out c .save d) := by
+  have h : Reach c d (stepAt c ⟨.save, some k⟩ d) := stepC_cases c _ d
+  simp [outAt, CallAt.fails, out_reach c _ d _ h]
 
 /-- where `meta.xml` sits: after `mimetype`, `styles.xml`, `content.xml` (and `settings.xml` when there are settings) -/
 theorem meta_position (F : Styles.Cfg) (d : Doc) :
@@ -123,9 +155,9 @@ def sampleCfg : Render.Cfg := ⟨⟨[], [], fun _ => false⟩, str "ODFPY/x"⟩
 
 /-- a failure while `content.xml` (member 2) is written leaves the foreign generator in place; a failure behind `meta.xml`
     (member 5 does not exist here: the stream raised while the manifest was written) has normalised it -/
-example : (runC sampleCfg [⟨.save, some 2⟩] C12.sample).metaEl = C12.sample.metaEl := by rfl
-example : (runC sampleCfg [⟨.save, some 2⟩, ⟨.write, some 4⟩] C12.sample).metaEl =
+example : (runAt sampleCfg [⟨.save, some 2⟩] C12.sample).metaEl = C12.sample.metaEl := by rfl
+example : (runAt sampleCfg [⟨.save, some 2⟩, ⟨.write, some 4⟩] C12.sample).metaEl =
     .elem 20 [] [.elem 21 [] [.text (str "T")], .elem eGenerator [] [.text (str "ODFPY/x")]] := by rfl
-example : (outsC sampleCfg [⟨.save, some 1⟩, ⟨.metaxml, none⟩, ⟨.write, some 5⟩, ⟨.save, none⟩] C12.sample).length = 4 := rfl
+example : (outsAt sampleCfg [⟨.save, some 1⟩, ⟨.metaxml, none⟩, ⟨.write, some 5⟩, ⟨.save, none⟩] C12.sample).length = 4 := rfl
 
 end OdfModel.Props.C12Fault
